@@ -93,15 +93,18 @@ def run(ctx):
         r = min(rank, rng.choice([0, 0, 1, rank, rng.randint(0, rank)]))
         sh = [ss[k] if rng.random() < 0.6 else 1 for k in range(r)]
         cnt = int(np.prod(sh)) if sh else 1
-        style = rng.choice(['whole', 'frac', 'frac', 'big', 'mixed', 'mixed'])
+        style = rng.choice(['whole', 'frac', 'frac', 'big', 'mixed', 'mixed', 'tiny'])
 
         def one():
-            s = style if style != 'mixed' else rng.choice(['whole', 'frac', 'big', 'zero'])
+            s = style if style != 'mixed' else rng.choice(['whole', 'frac', 'big', 'zero', 'tiny'])
             sign = rng.choice([1, -1])
             if s == 'whole':
                 return Fraction(sign * rng.randint(0, max(1, N)))
             if s == 'frac':
                 return Fraction(sign * rng.uniform(0.01, max(1.0, N * 0.9))).limit_denominator(1000) + Fraction(1, 2003)
+            if s == 'tiny':
+                # a minute fraction of a bin (|df| <= 1e-8 of the sample rate): still a shift - the one wrapped bin is zeroed
+                return Fraction(sign, 10 ** rng.choice([6, 7, 8, 9, 10, 12]))
             if s == 'big':
                 return Fraction(sign) * (N + rng.choice([0, Fraction(1, 2), 1, Fraction(13, 4), N]))
             return Fraction(0)
